@@ -84,8 +84,8 @@ PROPS['C05'] = {
     'functions': ['anstyle::color::DisplayBuffer::{write_str,write_code,as_str,write_to}', 'AnsiColor/Ansi256Color/RgbColor::{as_fg_buffer,as_bg_buffer,as_underline_buffer,render_fg,render_bg}',
                   'Color::{render_fg,render_bg,render_underline,write_fg_to,write_bg_to,write_underline_to}', 'Effects::{render,write_to}', 'EffectsDisplay::fmt',
                   'Style::{fmt_to,write_to,render,render_reset,write_reset_to}', 'Display for Style/StyleDisplay/Reset/DisplayBuffer/NullFormatter'],
-    'quick': {'kani': [{'crate': 'anstyle', 'harnesses': REND_QUICK, 'timeout': 1500, 'mem_gb': 8, 'jobs': 8}]},
-    'thorough': {'kani': [{'crate': 'anstyle', 'harnesses': REND_ALL, 'timeout': 3000, 'mem_gb': 8, 'jobs': 8}]},
+    'quick': {'kani': [{'crate': 'anstyle', 'harnesses': REND_QUICK, 'timeout': 1500, 'mem_gb': 8, 'jobs': 8, 'flags': ['-Z', 'stubbing']}]},
+    'thorough': {'kani': [{'crate': 'anstyle', 'harnesses': REND_ALL, 'timeout': 3000, 'mem_gb': 8, 'jobs': 8, 'flags': ['-Z', 'stubbing']}]},
     'assumptions': ['core::fmt machinery (format_args!, Formatter::write_str/pad, fmt::write) as compiled by Kani',
                     'S4 (spec/sgr.rs) is the reference SGR interpreter; underline kinds are independent bits (the only reading under which all 4096 effect sets can round-trip)'],
     'explanation': 'Compositional: every colour buffer and every effect escape interprets (S4) to exactly its colour/effect (complete over all values); Style::write_to is the in-order concatenation of those parts for every style (symbolic, complete); Display paths and format flags are compared byte-for-byte on five concrete styles (bounded).',
@@ -169,7 +169,7 @@ PROPS['C06'] = {
 }
 
 SGR_SHAPES_Q = ['sgr_shape_1', 'sgr_shape_2_semi', 'sgr_shape_2_colon', 'sgr_shape_3_semi', 'sgr_shape_3_colon', 'sgr_shape_3_colon_semi',
-                'sgr_shape_4_semi', 'sgr_shape_5_semi', 'sgr_print_execute', 'sgr_to_ansi_color']
+                'sgr_shape_4_semi', 'sgr_shape_5_semi', 'sgr_shape_10_semi', 'sgr_print_execute', 'sgr_to_ansi_color']
 SGR_SHAPES_T = SGR_SHAPES_Q + ['sgr_shape_3_semi_colon', 'sgr_shape_4_colon3_semi', 'sgr_shape_5_colon', 'sgr_shape_6_semi']
 PROPS['C07'] = {
     'level': 'model_checking',
@@ -218,15 +218,16 @@ PROPS['C08']['thorough'] = PROPS['C08']['quick']
 
 PROPS['C12'] = {
     'level': 'model_checking',
-    'functions': ['anstyle_ls::parse'],
-    'quick': {'kani': [{'crate': 'anstyle-ls', 'harnesses': ['ls_codes_1', 'ls_codes_2', 'ls_codes_3', 'ls_reject_and_none'], 'timeout': 1500, 'mem_gb': 10}]},
-    'thorough': {'kani': [{'crate': 'anstyle-ls', 'harnesses': ['ls_codes_1', 'ls_codes_2', 'ls_codes_3', 'ls_codes_5', 'ls_reject_and_none'], 'timeout': 3000, 'mem_gb': 12}]},
-    'bounded': {'ls_codes_1': 'one code, all 256 values, 3-digit decimal field', 'ls_codes_2': 'two codes, all values', 'ls_codes_3': 'three codes, all values (covers 38;5;n)',
-                'ls_codes_5': 'five codes, all values (covers 38;2;r;g;b)', 'ls_reject_and_none': 'ten concrete inputs'},
-    'rule': 'one case = one list length with all 256^n code values (fields rendered as 3-digit decimals); non-trivial = verified with a style-changing list reached',
-    'assumptions': ['field spellings other than three digits (no leading zeros, more digits) go through the same std u8::from_str, assumed',
-                    'lists longer than five codes are not explored; 38/48/58 not followed by 5;n or 2;r;g;b (truncated or malformed groups) are outside the statement and unconstrained'],
-    'explanation': 'Kani runs the real parse on texts of fixed shape and symbolic numeric content and compares the result with the statement\'s left-to-right semantics; bounded in list length.',
+    'functions': ['anstyle_ls::parse — the code-application loop (everything after the tokenising statement), cut verbatim (rule E9)'],
+    'quick': {'kani': [{'crate': 'anstyle-ls', 'harnesses': ['ls_codes_1', 'ls_codes_2', 'ls_codes_3', 'ls_codes_5'], 'timeout': 1500, 'mem_gb': 10}]},
+    'thorough': {'kani': [{'crate': 'anstyle-ls', 'harnesses': ['ls_codes_1', 'ls_codes_2', 'ls_codes_3', 'ls_codes_5', 'ls_codes_6'], 'timeout': 3000, 'mem_gb': 12}]},
+    'bounded': {'ls_codes_1': 'lists of one code, all 256 values', 'ls_codes_2': 'two codes, all values', 'ls_codes_3': 'three codes, all values (covers 38;5;n)',
+                'ls_codes_5': 'five codes, all values (covers 38;2;r;g;b)', 'ls_codes_6': 'six codes, all values'},
+    'rule': 'one case = one list length with all 256^n code values; non-trivial = verified with a style-changing list reached',
+    'assumptions': ['NOT verified: the tokenising statement (split, u8::from_str, collect into VecDeque) and the early return for "", "0", "00" — CBMC does not finish on this std string/alloc code even for concrete inputs; so "rejects anything that is not a list of numbers" and "no style for the empty string, 0, 00" are not covered',
+                    'lists longer than six codes are not explored; 38/48/58 not followed by 5;n or 2;r;g;b (truncated or malformed groups) are outside the statement and unconstrained',
+                    'std VecDeque::pop_front as compiled by Kani'],
+    'explanation': 'The loop that applies the codes is cut verbatim out of parse (extractor rule E9) and run by Kani on queues of 1-6 symbolic codes against the statement\'s left-to-right semantics; bounded in list length, complete in values.',
 }
 
 PROPS['C11'] = {
@@ -246,10 +247,9 @@ PROPS['C11']['thorough'] = PROPS['C11']['quick']
 PROPS['C17'] = {
     'level': 'model_checking',
     'functions': ['anstyle_wincon::ansi::write_colored', 'WinconStream for dyn Write (forwarding)'],
-    'quick': {'kani': [{'crate': 'anstyle-wincon', 'harnesses': ['wincon_ansi_write_colored', 'wincon_ansi_trait_dyn_write'], 'timeout': 2400, 'mem_gb': 12}]},
-    'bounded': {'wincon_ansi_write_colored': 'all 17x17 colour pairs, data 1-2 symbolic bytes, failure at any of the inner writes, any prefix of the data accepted',
-                'wincon_ansi_trait_dyn_write': 'one colour pair through the trait impl for dyn Write'},
-    'rule': 'one case = one harness over all colour pairs x data bytes x failure points x accepted prefixes; non-trivial = verified with short-write and error covers reached',
+    'quick': {'kani': [{'crate': 'anstyle-wincon', 'harnesses': ['wincon_ansi_fg_only', 'wincon_ansi_bg_only', 'wincon_ansi_both', 'wincon_ansi_none', 'wincon_ansi_trait_dyn_write', 'wincon_ansi_fail_first', 'wincon_ansi_fail_data', 'wincon_ansi_fail_reset'], 'timeout': 2400, 'mem_gb': 7, 'jobs': 8}]},
+    'bounded': {h: 'one concrete colour pair (fg only / bg only / both / none / via the dyn Write impl); data 1-2 symbolic bytes, failure at any inner write, any prefix of the data accepted' for h in ['wincon_ansi_fg_only', 'wincon_ansi_bg_only', 'wincon_ansi_both', 'wincon_ansi_none', 'wincon_ansi_trait_dyn_write', 'wincon_ansi_fail_first', 'wincon_ansi_fail_data', 'wincon_ansi_fail_reset']},
+    'rule': 'one case = one colour-pair shape x all data bytes x failure points x accepted prefixes; non-trivial = verified with short-write and error covers reached',
     'assumptions': ['trait impls for Vec<u8>, File, stdio and their locks forward to the same function (not separately harnessed)', 'S4 (spec/sgr.rs) as SGR reference'],
     'explanation': 'Kani checks write_colored against a scripted writer: codes-before-data interpret (S4) to exactly the requested colours, data forwarded unchanged, reset after, returned count is what the writer accepted for the data, inner errors surface.',
 }
@@ -279,3 +279,18 @@ PROPS['C18'] = {
                     'impl Write for WinconStream, write_fmt and write_vectored only compile on Windows and are not covered; chunked input is not covered here'],
     'explanation': 'The platform-independent functions of the console stream are extracted verbatim and run by Kani against a recording console whose every call may accept any prefix, nothing, or fail.',
 }
+
+PROPS['C19'] = {
+    'level': 'other',
+    'functions': ['impl Write for StripStream / AutoStream (write, write_vectored, flush, write_all, write_fmt): lock acquisitions per call',
+                  'colorchoice::AtomicChoice::{new,get,set,from_choice,to_choice}'],
+    'quick': {'kani': [
+        {'crate': 'anstream', 'harnesses': ['stream_methods_forward', 'auto_passthrough_forwards', 'auto_never_is_strip_stream', 'lock_write_fmt_once'], 'timeout': 1500, 'flags': ['-Z', 'stubbing'], 'mem_gb': 12},
+        {'crate': 'colorchoice', 'harnesses': ['choice_encoding_total'], 'timeout': 600}]},
+    'explanation': 'REDUCED FORM, no schedule is explored: neither Verus (without its permission types) nor Kani models threads. What is verified is the sequential sufficient condition the code relies on: every Write method of StripStream and AutoStream acquires the inner lock exactly once and performs all inner writes through that guard (so one print!/write_all/write_fmt call is one critical section of StdoutLock), and the atomic colour choice is a total, injective encoding whose get cannot panic. That one critical section is not interleaved, and that AtomicUsize with SeqCst behaves as an atomic register, are std contracts: ASSUMED.',
+    'assumptions': ['std::io::StdoutLock / StderrLock give mutual exclusion for the lifetime of the guard (std contract, assumed)',
+                    'AtomicUsize load/store with SeqCst are linearizable (std contract, assumed)',
+                    'the print macros expand to one write_fmt call on anstream::stdout()/stderr() (read off _macros.rs, not verified)',
+                    'write_fmt is exercised with a literal-only format string; with arguments the same Adapter calls write_all per fragment under the same guard (by reading)'],
+}
+PROPS['C19']['thorough'] = PROPS['C19']['quick']
